@@ -193,15 +193,21 @@ Definition gc_pass (t : table) (now : Z) : table :=
                end) (t_rows t) t.
 
 
-(* CreateTable's validation: a table id has the documented format [_a-zA-Z0-9][-_.a-zA-Z0-9]*, and
+(* CreateTable's validation: a table id has the documented format [_a-zA-Z0-9][-_.a-zA-Z0-9]{0,49} and is
+   not a definition-file name, and
    the parent has the form projects/<project>/instances/<instance> *)
 Definition tid_first (b : N) : bool :=
   (N.eqb b 95) || ((48 <=? b) && (b <=? 57))%N || ((65 <=? b) && (b <=? 90))%N || ((97 <=? b) && (b <=? 122))%N.
 Definition tid_rest (b : N) : bool := tid_first b || N.eqb b 45 || N.eqb b 46.
+Definition s_table_proto : bytes := [46;116;97;98;108;101;46;112;114;111;116;111]%N.                 (* .table.proto *)
+Definition s_table_proto_tmp : bytes := [46;116;97;98;108;101;46;112;114;111;116;111;46;116;109;112]%N. (* .table.proto.tmp *)
+(* at most 50 characters, and not the name persistent storage gives to a definition file *)
 Definition valid_tid (t : bytes) : bool :=
   match t with
   | [] => false
   | b :: r => tid_first b && forallb tid_rest r
+              && (length t <=? 50)%nat
+              && negb (has_suffix t s_table_proto) && negb (has_suffix t s_table_proto_tmp)
   end.
 Definition s_dot : bytes := [46]%N.
 Definition s_dotdot : bytes := [46; 46]%N.
